@@ -196,6 +196,13 @@ def step(ex, st, T):
                 yield st, None, T
             return
         raise NotConcrete("range with symbolic bounds")
+    if k == "adt" and T[1] == "core::option::Option":
+        # Option<T> as IntoIterator: zero or one item
+        if T[2] == "Some":
+            yield st, T[3][0], ("adt", T[1], "None", ())
+        else:
+            yield st, None, T
+        return
     if k == "adt":
         # a user-defined iterator struct whose `next` only forwards to the `next` of one of its fields (checked on its MIR)
         fi = delegating_field(ex, T[1])
